@@ -35,6 +35,7 @@ var corpus = []baseDoc{
 	{"multi-leading-blank", "multi", "\n\n \n(a,b,(c,d));\n"},
 	{"multi-tab-after-semicolon", "multi", "(a,b,(c,d));\t\n(a,c,(b,d)); \t \n(a,d,(b,c));\t"},
 	{"multi-semicolon-in-comment", "multi", "(a[x;y],b,(c,d));\n(a,c,(b,d)[;]);\n"},
+	{"multi-14-bad-12th", "multi", "(a,b,(c,d));\n(a,c,(b,d));\n(a,d,(b,c));\n(a,b,(c,d));\n(a,c,(b,d));\n(a,d,(b,c));\n(a,b,(c,d));\n(a,c,(b,d));\n(a,d,(b,c));\n(a,b,(c,d));\n(a,c,(b,d));\n(a,d,(b,c);\n(a,b,(c,d));\n(a,c,(b,d));\n"},
 	// ---- Nexus
 	{"nx-full", "nexus", `#NEXUS
 [ a comment ]
@@ -101,6 +102,9 @@ END;
 	{"px-empty-elements", "phyloxml", `<phyloxml><phylogeny rooted="true"><clade><clade/><clade><name/><branch_length/></clade><clade><name>a</name><confidence/></clade></clade></phylogeny><phylogeny/></phyloxml>`},
 	{"px-cdata-entities", "phyloxml", `<?xml version="1.0"?><!DOCTYPE phyloxml><phyloxml><!-- c --><phylogeny rooted="false"><clade><clade><name><![CDATA[a<b]]></name></clade><clade><name>x&amp;y&#65;</name><branch_length> 1e-2 </branch_length></clade><clade><name>c</name><branch_length>-1</branch_length><confidence type="b">NaN</confidence></clade></clade></phylogeny></phyloxml>`},
 	{"nx-huge-dimensions", "nexus", "#NEXUS\nBEGIN TAXA;\nDIMENSIONS NTAX=3;\nTAXLABELS a b c;\nEND;\nBEGIN DATA;\nDIMENSIONS NTAX=3 NCHAR=2;\nFORMAT DATATYPE=DNA;\nMATRIX\na AC\nb AG\nc AT\n;\nEND;\nBEGIN TREES;\nTREE t=(a,b,c);\nEND;\n"},
+	{"px-latin1", "phyloxml", `<?xml version="1.0" encoding="ISO-8859-1"?><phyloxml><phylogeny rooted="true"><clade><clade><name>a</name></clade><clade><name>b</name></clade></clade></phylogeny></phyloxml>`},
+	{"px-utf16-declared", "phyloxml", `<?xml version="1.0" encoding="UTF-16"?><phyloxml><phylogeny rooted="true"><clade><clade><name>a</name></clade><clade><name>b</name></clade></clade></phylogeny></phyloxml>`},
+	{"px-windows1252-standalone", "phyloxml", `<?xml version="1.1" encoding="windows-1252" standalone="yes"?><phyloxml><phylogeny rooted="true"><clade><clade><name>a</name></clade><clade><name>b</name></clade></clade></phylogeny></phyloxml>`},
 	// ---- Nextstrain
 	{"ns-small", "nextstrain", `{"version":"v2","meta":{"title":"t"},"tree":{"name":"NODE_0","node_attrs":{"div":0},"children":[{"name":"a","node_attrs":{"div":1.5,"num_date":{"value":2020.1,"confidence":[2020.0,2020.2]},"country":{"value":"FR"},"accession":"AB:1, 2"},"branch_attrs":{"labels":{"aa":"S: A1B, C2D"},"mutations":{"nuc":["A1T"]}}},{"name":"NODE_1","node_attrs":{"div":1},"children":[{"name":"b","node_attrs":{"div":2}},{"name":"c","node_attrs":{"div":2.5}}]}]}}`},
 	{"ns-v1", "nextstrain", `{"version":"v1","tree":{"name":"r","children":[]}}`},
